@@ -527,10 +527,84 @@ class _Unroller:
         return out
 
 
+class _Functional(ast.NodeTransformer):
+    """map / filter / operator helpers as the comprehensions they stand for:
+    map(f, xs) -> (f(x) for x in xs), map(lambda a: e, xs) -> (e for a in
+    xs), map(attrgetter('p'), xs) -> (x.p for x in xs), itemgetter(i) ->
+    x[i], methodcaller('m', a) -> x.m(a), filter(f, xs) -> (x for x in xs
+    if f(x)), filter(None, xs) -> (x for x in xs if x)."""
+    def __init__(self):
+        self.n = 0
+
+    def _apply(self, f, x):
+        """Expression for f(x) with x a fresh Name."""
+        if isinstance(f, ast.Lambda) and len(f.args.args) == 1 and not (
+                f.args.vararg or f.args.kwarg or f.args.kwonlyargs or
+                f.args.defaults):
+            return _Subst({f.args.args[0].arg: x}, set()).visit(
+                copy.deepcopy(f.body))
+        if isinstance(f, ast.Call) and not f.keywords:
+            nm = f.func.attr if isinstance(f.func, ast.Attribute) else (
+                f.func.id if isinstance(f.func, ast.Name) else '')
+            if nm == 'attrgetter' and len(f.args) == 1 and isinstance(
+                    f.args[0], ast.Constant) and isinstance(
+                        f.args[0].value, str):
+                e = x
+                for part in f.args[0].value.split('.'):
+                    if not part.isidentifier():
+                        return None
+                    e = ast.Attribute(value=e, attr=part, ctx=ast.Load())
+                return e
+            if nm == 'itemgetter' and len(f.args) == 1:
+                return ast.Subscript(value=x, slice=f.args[0],
+                                     ctx=ast.Load())
+            if nm == 'methodcaller' and f.args and isinstance(
+                    f.args[0], ast.Constant) and isinstance(
+                        f.args[0].value, str) and \
+                    f.args[0].value.isidentifier():
+                return ast.Call(func=ast.Attribute(
+                    value=x, attr=f.args[0].value, ctx=ast.Load()),
+                    args=list(f.args[1:]), keywords=[])
+        if isinstance(f, (ast.Name, ast.Attribute)):
+            return ast.Call(func=f, args=[x], keywords=[])
+        return None
+
+    def visit_Call(self, node):
+        self.generic_visit(node)
+        if isinstance(node.func, ast.Name) and node.func.id in (
+                'map', 'filter') and len(node.args) == 2 and \
+                not node.keywords and not any(
+                    isinstance(a, ast.Starred) for a in node.args):
+            f, xs = node.args
+            var = '_nx{}'.format(self.n)
+            x = ast.Name(id=var, ctx=ast.Load())
+            if node.func.id == 'map':
+                elt = self._apply(f, x)
+                conds = []
+            else:
+                elt = x
+                if isinstance(f, ast.Constant) and f.value is None:
+                    conds = [ast.Name(id=var, ctx=ast.Load())]
+                else:
+                    c = self._apply(f, ast.Name(id=var, ctx=ast.Load()))
+                    conds = [c] if c is not None else None
+            if elt is None or conds is None:
+                return node
+            self.n += 1
+            new = ast.GeneratorExp(elt=elt, generators=[ast.comprehension(
+                target=ast.Name(id=var, ctx=ast.Store()), iter=xs,
+                ifs=conds, is_async=0)])
+            return ast.copy_location(new, node)
+        return node
+
+
 def normalize(tree):
     """Rewrite `tree` in place; returns the number of loops unrolled."""
     u = _Unroller(_collect(tree.body))
     try:
+        fx = _Functional()
+        fx.visit(tree)
+        ast.fix_missing_locations(tree)
         u.run(tree)
         _fold_getattr(tree)
         ast.fix_missing_locations(tree)
